@@ -18,7 +18,7 @@ import (
 
 // C18 — only the leader writes and streams; followers read at its revision or fail.
 
-var c18PeerModes = []string{"", "delay", "loss", "http500", "http400", "timeout"}
+var c18PeerModes = []string{"", "delay", "loss", "http500", "http400", "timeout", "cutbody", "stallbody"}
 
 func genC18(r *rt.Rand, tier string, idx int) *world.Scenario {
 	sc := &world.Scenario{Prefix: prefix, Seed: r.Uint64(), Engine: "memkv", EtcdCompat: true}
@@ -358,7 +358,7 @@ func c18Custom(t *testing.T, sc *world.Scenario, out *Outcome) {
 			continue
 		}
 		out.probe("follower-read-served")
-		if r.mode == "loss" || r.mode == "http500" || r.mode == "http400" || r.mode == "timeout" {
+		if r.mode == "loss" || r.mode == "http500" || r.mode == "http400" || r.mode == "timeout" || r.mode == "cutbody" || r.mode == "stallbody" {
 			out.violate(P, "follower-read-without-leader", "follower-read-without-leader peer="+r.mode, "follower served %s (header %d) although the leader could not be reached (%s)", r.kind, r.hdr, r.mode)
 			continue
 		}
